@@ -15,7 +15,8 @@ def run(ctx):
                        nontrivial=lambda cl: sum(1 for l in cl if ' ret del ' in l) >= 2 and L.contended(cl), tail='012345' * 200, scenario='scen_lfht')
     ximpl = X.build(ctx)
     if ximpl:
-        X.run_cases(ctx, 'ownership among del / replace / add_replace', ximpl, X.gen(ctx, XPROGS, 300 if ctx.quick() else 4000, 'C07x', [('2', '8', 'o'), ('1', '8', 'o')]))
+        fdriver = build_model_driver(ctx, 'flagproto', 'ExtractFlagProto.v', 'flagproto_driver.ml')
+        X.run_cases(ctx, 'ownership among del / replace / add_replace', ximpl, X.gen(ctx, XPROGS, 300 if ctx.quick() else 4000, 'C07x', [('2', '8', 'o'), ('1', '8', 'o')]), flag_driver=fdriver)
         dcases = [(prog, '0' * p1 + '1' * w1 + '0000000001' * 60, ('2', '8', 'o')) for prog in DPROGS for p1 in range(60, 420, 4 if ctx.quick() else 1) for w1 in (4, 9, 15)]
         driver = build_model_driver(ctx, 'resizeproto', 'ExtractResizeProto.v', 'resizeproto_driver.ml')
         X.run_cases(ctx, 'released bucket tables are never touched again', ximpl, dcases, proto_driver=driver)
